@@ -33,5 +33,8 @@ func (d *Decoder) readType() (string, error) {
 		return "", newCodecError("readType", err)
 	}
 	index := int(i)
+	if index < 0 || index >= len(d.typList) {
+		return "", newCodecError("readType", "type ref index %d out of range %d", index, len(d.typList))
+	}
 	return d.typList[index], nil
 }
